@@ -104,7 +104,7 @@ let u_call (fn : string) (a : string list) : string =
   | "deTwin" -> str_ns (deTwin (ns_of (List.nth a 0)) (n 1))
   | "proofPosition" -> str_ns (proofPosition (n 0) (n 1) (n 2))
   | "ProofPositions" ->
-    let (p, c) = proofPositions (ns_of (List.nth a 0)) (n 1) (n 2) in str_ns p ^ " " ^ str_ns c
+    let (p, c) = proofPositions_fast (ns_of (List.nth a 0)) (n 1) (n 2) in str_ns p ^ " " ^ str_ns c
   | "maxPositionAtRow" -> let (v, e) = maxPositionAtRow (n 0) (n 1) (n 2) in string_of_n v ^ "/" ^ b01 e
   | "maxPossiblePosAtRow" -> string_of_n (maxPossiblePosAtRow (n 0) (n 1))
   | "startPositionAtRow" -> string_of_n (startPositionAtRow (n 0) (n 1))
@@ -392,6 +392,24 @@ let handle (toks : string list) =
            | _ -> "unknown-fn") with Failure x -> "EXC:" ^ x | Invalid_argument x -> "EXC:" ^ x) in
        check "mirror" ("MR." ^ fn ^ "." ^ label) (String.equal exp got)
          (fun () -> Printf.sprintf "args=%s model=%s impl=%s" (String.concat " " args) (String.sub exp 0 (min 300 (String.length exp))) (String.sub got 0 (min 300 (String.length got)))))
+  (* PO fn args = result : mirror of AddProof / GetProofSubset / GetMissingPositions (Model/ProofOps.v) *)
+  | "PO" :: fn :: rest ->
+    let rec split acc = function
+      | "=" :: r -> (List.rev acc, r) | x :: r -> split (x :: acc) r | [] -> (List.rev acc, []) in
+    let (args, res) = split [] rest in
+    let got = String.concat " " res in
+    let a i = List.nth args i in
+    let exp = (try (match fn with
+        | "AddProof" ->
+          (match addProof (ns_of (a 0)) (hashes_of (a 1)) (ns_of (a 2)) (hashes_of (a 3)) (hashes_of (a 4)) (hashes_of (a 5)) (n_of_string (a 6)) with
+           | Some ((h, t), p) -> str_hs h ^ " " ^ str_ns t ^ " " ^ str_hs p | None -> "undefined")
+        | "GetProofSubset" ->
+          (match getProofSubset ops (ns_of (a 0)) (hashes_of (a 1)) (hashes_of (a 2)) (ns_of (a 3)) (n_of_string (a 4)) with
+           | Some ((h, t), p) -> "ok " ^ str_hs h ^ " " ^ str_ns t ^ " " ^ str_hs p | None -> "err")
+        | "GetMissingPositions" -> str_ns (getMissingPositionsFn (n_of_string (a 0)) (ns_of (a 1)) (ns_of (a 2)))
+        | _ -> "unknown-fn") with Failure x -> "EXC:" ^ x | Invalid_argument x -> "EXC:" ^ x) in
+    check "mirror" ("PO." ^ fn) (String.equal exp got)
+      (fun () -> Printf.sprintf "args=%s model=%s impl=%s" (String.concat " " args) (String.sub exp 0 (min 300 (String.length exp))) (String.sub got 0 (min 300 (String.length got))))
   | ["EQ"; label; a; b] ->
     check "prop" ("EQ." ^ label) (String.equal a b) (fun () -> Printf.sprintf "a=%s b=%s" a b)
   | t :: _ -> fail "harness" t "unknown event"
